@@ -177,6 +177,13 @@ def gen_jobs(rng, thorough):
     for al in ("owned", "root"):
         jobs.append(Job("passwd-alias", None, base_db, [], al, PW_LOCALS))
 
+    # (2b) uid fields that are non-zero multiples of 2^32: they fit an unsigned long but narrow to 0 in uid_t, i.e. they denote
+    # root; such a delivery must never be started as root (presented to the model as uid-0 entries)
+    for utext in ("4294967296", "8589934592", "00000000004294967296", "18446744069414584320"):
+        e1 = dict(ent(0, b"joe", (b"wrap", 0, 209, b"/h/9")), uidtext=utext)
+        e2 = dict(ent(1, b"bob-", (b"wrapw", 0, 210, b"/h/10"), b"-", b"w"), uidtext=utext)
+        jobs.append(Job("enum-table", [e1, e2, ENUM_ENTRIES[0]], base_db, locals_=ENUM_LOCALS + [b"bob-x", b"bob-"], trace=True))
+
     # (3) seeded random tables and databases
     def rand_entry():
         loc = rng.choice(VOCAB)
